@@ -28,6 +28,7 @@ import (
 	"strconv"
 	"strings"
 	"sync"
+	"sync/atomic"
 	"time"
 
 	"github.com/rs/zerolog"
@@ -179,6 +180,7 @@ type run struct {
 	dbw       int // harness copy of the bbolt discipline (for the deadlock verdict only)
 	obs       []string
 	entryOrd  map[int][]string
+	quit      atomic.Bool
 }
 
 var current *run
@@ -224,8 +226,35 @@ func yieldHook(point string) {
 
 func (th *thread) park(r *run, point, info string) {
 	th.lastPt = point
+	if r.quit.Load() {
+		return // the schedule is over: run on freely so that the goroutine can end
+	}
 	r.events <- event{th, point, info}
 	<-th.resume
+}
+
+// end of a schedule: every parked goroutine is let go (those blocked in a deadlock stay behind)
+func (r *run) release() {
+	r.quit.Store(true)
+	for _, th := range r.order {
+		if th.point != "" && !th.flight {
+			th.point = ""
+			select {
+			case th.resume <- struct{}{}:
+			case <-time.After(50 * time.Millisecond):
+			}
+		}
+	}
+	// drain events of goroutines that were about to park
+	go func() {
+		for {
+			select {
+			case <-r.events:
+			case <-time.After(2 * time.Second):
+				return
+			}
+		}
+	}()
 }
 
 func newRun(c cfg) *run {
@@ -600,6 +629,7 @@ func (r *run) exec(tokens []string) string {
 				} else {
 					r.obs = append(r.obs, tok+">BLOCKED("+blocked+")")
 					aborted = true
+					r.drain(&pending)
 				}
 				continue
 			}
@@ -680,6 +710,80 @@ func (r *run) deadlockCheck(pending *[]event) string {
 	}
 	sort.Strings(free)
 	return "nodeadlock[free=" + strings.Join(free, ",") + "]"
+}
+
+func (r *run) harnessEnabled(th *thread) bool {
+	switch th.point {
+	case "H.idle":
+		return !(r.c.db && !th.cur.ro && r.dbw != -1 && r.dbw != th.tx)
+	case "H.cWait":
+		return r.joined(th.tx)
+	case "H.done", "":
+		return false
+	}
+	return true
+}
+
+// the schedule can no longer be followed (a step the model calls enabled has blocked): let the
+// implementation run on, one thread at a time, to find out whether it is a real deadlock
+func (r *run) drain(pending *[]event) {
+	for iter := 0; iter < 5000; iter++ {
+		moved := false
+		for _, th := range r.order {
+			if !th.flight {
+				continue
+			}
+			for i, ev := range *pending {
+				if ev.th == th {
+					*pending = append((*pending)[:i], (*pending)[i+1:]...)
+					th.flight, th.point = false, ev.point
+					r.onArrive(th, ev)
+					moved = true
+					break
+				}
+			}
+			if th.flight && !isLockWait(goroutineState(th.goid)) {
+				if ev, blocked := r.await(th, pending); blocked == "" {
+					th.flight, th.point = false, ev.point
+					r.onArrive(th, ev)
+					moved = true
+				}
+			}
+		}
+		for _, th := range r.order {
+			if th.done || th.flight || !r.harnessEnabled(th) {
+				continue
+			}
+			r.onRelease(th)
+			th.point = ""
+			th.resume <- struct{}{}
+			ev, blocked := r.await(th, pending)
+			if blocked != "" {
+				th.flight = true
+			} else {
+				th.point = ev.point
+				r.onArrive(th, ev)
+			}
+			moved = true
+			break
+		}
+		if !moved {
+			break
+		}
+	}
+	if r.allDone() {
+		return
+	}
+	var stuck []string
+	for _, th := range r.order {
+		if !th.done {
+			stuck = append(stuck, th.id+"@"+pointToPC(th.lastPt))
+		}
+	}
+	sort.Strings(stuck)
+	if r.c.db {
+		r.violate("deadlock", "no goroutine can advance: "+strings.Join(stuck, " "))
+	}
 }
 
 func (r *run) allDone() bool {
@@ -776,6 +880,7 @@ func runSchedule(line string) (impl string, kinds []string, viol []string) {
 	r.start()
 	obs := r.exec(strings.Fields(parts[1]))
 	fin := r.final()
+	r.release()
 	currentMu.Lock()
 	current = nil
 	currentMu.Unlock()
